@@ -13,6 +13,9 @@ func (u *Universe) unwrap(fn *ssa.Function) *ssa.Function {
 	if fn == nil {
 		return nil
 	}
+	if u.ExpandedWrappers[fn] {
+		return fn
+	}
 	if fn.Synthetic != "" && fn.Parent() == nil {
 		if strings.HasPrefix(fn.Synthetic, "bound method wrapper") ||
 			strings.HasPrefix(fn.Synthetic, "wrapper for") ||
